@@ -79,6 +79,19 @@ Theorem C13_answers_never_mention_api : forall k t ms v n,
 Proof. exact expected_sound. Qed.
 Print Assumptions C13_answers_never_mention_api.
 
+(* A call the handlers refuse (wrong method: 405) changes nothing and answers
+   nothing: deleting such calls from any history changes neither the state,
+   nor any answer, nor the specification. *)
+Theorem C13_refused_calls_change_nothing : forall vr h s,
+  run vr s (drop_refused h) = run vr s h.
+Proof. exact refused_calls_change_nothing. Qed.
+Print Assumptions C13_refused_calls_change_nothing.
+
+Theorem C13_refused_calls_not_in_the_specification : forall c h,
+  spec_outputs c (drop_refused h) = spec_outputs c h.
+Proof. exact refused_spec. Qed.
+Print Assumptions C13_refused_calls_not_in_the_specification.
+
 (* The pinned code breaks both clauses (witnesses = corpus/C13). *)
 Theorem C13_reset_all_refuted_at_pinned_commit :
   model_outputs pinned wit_else_cfg [Traffic Res (wit_msg false); Reset; Query] = [[(2, Some 7)]]
